@@ -709,5 +709,10 @@ class Producer(object):
     def _cancel_outstanding(self):
         """Cancel all of our outstanding requests"""
         for d in list(self._outstanding):
-            d.addErrback(lambda _: None)  # Eat any uncaught errors
             d.cancel()
+            # The caller may not have added an errback (yet). Do not have the
+            # CancelledError reported as an unhandled error - but keep it as
+            # the Deferred's result: an errback eating it here would make the
+            # send look successful (None) to callbacks added later.
+            if d._debugInfo is not None:
+                d._debugInfo.failResult = None
